@@ -172,6 +172,15 @@ class LibMethod:
         return self
 
 
+class LambdaRef:
+    def __init__(self, node, env):
+        self.node = node
+        self.env = env
+
+    def __deepcopy__(self, memo):
+        return self
+
+
 class SuperRef:
     def __init__(self, obj, after_cls):
         self.obj = obj
@@ -278,7 +287,8 @@ class Outcome:
 # ---------------------------------------------------------------------------
 
 _STR_METHODS = {"lower", "upper", "startswith", "endswith", "strip", "replace", "split", "format", "join",
-                "lstrip", "rstrip", "title", "capitalize", "isdigit"}
+                "lstrip", "rstrip", "title", "capitalize", "isdigit", "isnumeric", "isalpha", "encode", "find",
+                "count", "zfill", "ljust", "rjust", "splitlines", "partition", "rpartition", "casefold", "isspace"}
 _DICT_METHODS = {"items", "keys", "values", "get", "pop", "update", "copy", "setdefault"}
 _LIST_METHODS = {"append", "index", "copy", "pop", "extend", "insert", "remove", "count"}
 
@@ -514,6 +524,13 @@ class Interp:
             self.err(node, f"no summary for external callable '{fv.dotted}'")
         if isinstance(fv, LibMethod):
             return self.call_libmethod(fv.recv, fv.name, args, kwargs, node)
+        if isinstance(fv, LambdaRef):
+            e2 = dict(fv.env)
+            names = [x.arg for x in fv.node.args.args]
+            for nm_, val_ in zip(names, args):
+                e2[nm_] = val_
+            e2.update(kwargs)
+            return self.eval(fv.node.body, e2)
         if isinstance(fv, Opaque):
             if fv.callable_:
                 return self.apply_opaque(fv, args, kwargs, node)
@@ -560,14 +577,21 @@ class Interp:
             return v.desc
         if isinstance(v, UnknownBool):
             return "?" + v.label
+        if type(v).__name__ in ("SStr", "Tok", "MiniFrame", "Col"):
+            return repr(v)
+        if isinstance(v, dict):
+            return "{" + ",".join(f"{self.describe(k)}:{self.describe(x)}" for k, x in v.items()) + "}"
         return type(v).__name__
 
     # -- library methods -------------------------------------------------------
     def call_libmethod(self, recv, name, args, kwargs, node):
+        if isinstance(recv, str) and name == "join" and getattr(self, "sym_strings", False):
+            return self.str_join(self, recv, self.iterate(args[0], node), node)
         if isinstance(recv, str) and name in _STR_METHODS:
             try:
                 cargs = [self.to_py(a, node) for a in args]
-                r = getattr(recv, name)(*cargs)
+                ckw = {k_: self.to_py(v_, node) for k_, v_ in kwargs.items()}
+                r = getattr(recv, name)(*cargs, **ckw)
             except (TypeError, ValueError) as e:
                 raise self.fault("TypeError", node, str(e))
             return self.from_py(r)
@@ -592,6 +616,9 @@ class Interp:
                 for a in args:
                     if isinstance(a, dict):
                         recv.update(a)
+                    elif isinstance(a, (list, tuple)) and all(isinstance(x, (list, tuple)) and len(x) == 2 for x in a):
+                        for kk, vv in a:
+                            recv[self.hashkey(kk, node)] = vv
                     else:
                         self.err(node, "dict.update with non-dict")
                 recv.update(kwargs)
@@ -636,7 +663,7 @@ class Interp:
             return "Opaque:" + v.tag.split("(")[0]
         if isinstance(v, Mask):
             return "Mask"
-        return type(v).__name__
+        return type(v).__name__     # incl. SStr, Tok, MiniFrame, Col of pgverif.docsim
 
     def to_py(self, v, node=None):
         if isinstance(v, Num):
@@ -686,12 +713,32 @@ class Interp:
             return True
         if isinstance(v, Opaque):
             return self.choose(2, label or f"truth({v.tag})") == 0
-        if isinstance(v, (Arr, Frame, Mask)):
+        if isinstance(v, (Arr, Frame, Mask)) or type(v).__name__ in ("MiniFrame", "Col"):
             raise self.fault("ValueError", node, "truth value of an array is ambiguous")
+        if type(v).__name__ == "SStr":
+            return len(v.parts) > 0
+        if type(v).__name__ in ("Tok", "LambdaRef", "ExcClassRef", "LibMethod"):
+            return True
         self.err(node, f"truthiness of {v!r}")
 
     def py_eq(self, a, b):
         """True / False / None(unknown)"""
+        ta, tb = type(a).__name__, type(b).__name__
+        if ta == "Tok" or tb == "Tok":
+            if ta == tb:
+                return a == b
+            if isinstance(a, Num) or isinstance(b, Num):
+                return False
+            return False        # value-domain assumption: a text token is not spelled like a marker / literal
+        if ta == "SStr" or tb == "SStr":
+            if ta == tb:
+                return True if a.parts == b.parts else None
+            other = b if ta == "SStr" else a
+            if isinstance(other, str):
+                return False    # contains a value token: not equal to a concrete marker (value-domain assumption)
+            return False
+        if isinstance(a, ExtRef) and isinstance(b, ExtRef):
+            return a.dotted == b.dotted
         if isinstance(a, Num) and isinstance(b, Num):
             if a.is_const() and b.is_const():
                 return a.value() == b.value()
@@ -746,6 +793,12 @@ class Interp:
                 r = a is b
             return r if isinstance(op, ast.Is) else not r
         if isinstance(op, (ast.Eq, ast.NotEq)):
+            if type(a).__name__ == "Col" or type(b).__name__ == "Col":
+                c, o = (a, b) if type(a).__name__ == "Col" else (b, a)
+                m = self.col_eq(c, o)
+                if isinstance(op, ast.NotEq):
+                    m.values = [None if x is None else (not x) for x in m.values]
+                return m
             if isinstance(a, Arr) or isinstance(b, Arr):
                 x, y = (a, b) if isinstance(a, Arr) else (b, a)
                 return Mask(f"{x.num.canon()}{'==' if isinstance(op, ast.Eq) else '!='}{self.describe(y)}")
@@ -771,7 +824,14 @@ class Interp:
             if isinstance(a, Num) and isinstance(b, Num) and a.is_const() and b.is_const():
                 x, y = a.value(), b.value()
                 return {"<": x < y, "<=": x <= y, ">": x > y, ">=": x >= y}[sym]
-            if isinstance(a, (Num, Opaque)) and isinstance(b, (Num, Opaque)):
+            def infsign(v):
+                d = v.dotted if isinstance(v, ExtRef) else v.tag if isinstance(v, Opaque) else None
+                return {"numpy.inf": 1, "-numpy.inf": -1, "math.inf": 1, "-math.inf": -1}.get(d)
+            if isinstance(a, Num) and infsign(b) is not None:
+                return {"<": infsign(b) > 0, "<=": infsign(b) > 0, ">": infsign(b) < 0, ">=": infsign(b) < 0}[sym]
+            if isinstance(b, Num) and infsign(a) is not None:
+                return {"<": infsign(a) < 0, "<=": infsign(a) < 0, ">": infsign(a) > 0, ">=": infsign(a) > 0}[sym]
+            if isinstance(a, (Num, Opaque, ExtRef)) and isinstance(b, (Num, Opaque, ExtRef)):
                 return UnknownBool(f"{self.describe(a)}{sym}{self.describe(b)}")
             if a is None or b is None or isinstance(a, str) != isinstance(b, str):
                 raise self.fault("TypeError", node, f"'{sym}' not supported between these operands")
@@ -972,6 +1032,10 @@ class Interp:
             return (ta and tb) if isinstance(op, ast.BitAnd) else (ta or tb)
         if isinstance(a, str) and isinstance(b, str) and isinstance(op, ast.Add):
             return a + b
+        if isinstance(op, ast.Add) and (type(a).__name__ == "SStr" or type(b).__name__ == "SStr") and \
+                (isinstance(a, str) or type(a).__name__ == "SStr") and (isinstance(b, str) or type(b).__name__ == "SStr"):
+            from .docsim import SStr
+            return SStr.make([a, b])
         if isinstance(a, list) and isinstance(b, list) and isinstance(op, ast.Add):
             return a + b
         if isinstance(a, tuple) and isinstance(b, tuple) and isinstance(op, ast.Add):
@@ -1197,8 +1261,17 @@ class Interp:
                     parts.append(x)
                 elif x is None:
                     parts.append("None")
+                elif getattr(self, "sym_strings", False):
+                    from .docsim import sstr_of
+                    sx = sstr_of(x)
+                    if sx is None:
+                        return Opaque("str")
+                    parts.append(sx)
                 else:
                     return Opaque("str")
+        if any(not isinstance(p_, str) for p_ in parts):
+            from .docsim import SStr
+            return SStr.make(parts)
         return "".join(parts)
 
     def e_List(self, node, env):
@@ -1252,7 +1325,7 @@ class Interp:
         return out
 
     def e_Lambda(self, node, env):
-        return Opaque("lambda", callable_=True)
+        return LambdaRef(node, env)
 
     def e_Starred(self, node, env):
         self.err(node, "starred expression outside call")
@@ -1476,7 +1549,23 @@ class Interp:
         env.setdefault("__globals__", set()).update(st.names)
 
     def s_With(self, st, env):
-        self.err(st, "with statement outside the fragment")
+        mgrs = []
+        for it in st.items:
+            v = self.eval(it.context_expr, env)
+            kind = self.kind_of(v)
+            if (kind, "__enter__") in self.libmeth:
+                entered = self.libmeth[(kind, "__enter__")](self, v, [], {}, st)
+            else:
+                self.err(st, f"with statement over {kind}: no context-manager summary")
+            mgrs.append((kind, v))
+            if it.optional_vars is not None:
+                self.assign(it.optional_vars, entered, env)
+        try:
+            self.exec_block(st.body, env)
+        finally:
+            for kind, v in reversed(mgrs):
+                if (kind, "__exit__") in self.libmeth:
+                    self.libmeth[(kind, "__exit__")](self, v, [], {}, st)
 
     # -- builtins ------------------------------------------------------------------------
     def _install_builtins(self):
@@ -1506,6 +1595,10 @@ class Interp:
                         return True
                     if nm in ("float", "int") and isinstance(v, Num):
                         return True
+                    if nm == "str" and type(v).__name__ in ("SStr", "Tok"):
+                        return True
+                    if nm == "DataFrame" and type(v).__name__ == "MiniFrame":
+                        return True
                     if nm == "int" and isinstance(v, bool):
                         return True
                     if isinstance(v, Obj) and v.kind == x.dotted:
@@ -1531,6 +1624,12 @@ class Interp:
                     raise I.fault("ValueError", n, f"could not convert string to float: {v!r}")
             if isinstance(v, Arr):
                 return v.num
+            if type(v).__name__ == "SStr":
+                if len(v.parts) == 1 and isinstance(v.parts[0], Num):
+                    return v.parts[0]
+                raise I.fault("ValueError", n, f"could not convert string to float: {v!r}")
+            if type(v).__name__ == "Tok":
+                raise I.fault("ValueError", n, f"could not convert string to float: {v!r}")
             raise I.fault("TypeError", n, "float() argument must be a string or a real number")
 
         def b_str(I, a, k, n):
@@ -1541,6 +1640,13 @@ class Interp:
                 return "None"
             if isinstance(v, Obj) and v.cls is not None and v.cls.find_method("__str__"):
                 return I.call_func(v.cls.find_method("__str__"), [], {}, n, self_obj=v)
+            if isinstance(v, Obj) and (v.kind, "__str__") in I.libmeth:
+                return I.libmeth[(v.kind, "__str__")](I, v, [], {}, n)
+            if getattr(I, "sym_strings", False):
+                from .docsim import sstr_of
+                sx = sstr_of(v)
+                if sx is not None:
+                    return sx
             return Opaque("str")
 
         def b_getattr(I, a, k, n):
